@@ -4,5 +4,6 @@ From Coq Require Import Extraction ExtrOcamlBasic.
 From Robsd Require Import Report.ReportFixture Report.ReportSpec Report.DurationSpec.
 Extraction Language OCaml.
 Extraction "rp_model.ml" run_fixture sh_total_fixture
+  spec_ok_bytes spec_ok_bytes_numbers name_order_is_age sizes_as_by_name bytes_numbers_as_by_name
   spec_ok_exit spec_ok_status spec_ok_sections spec_ok_body spec_ok_sane
   spec_ok_total spec_ok_step_duration spec_ok_sizes spec_ok_shell.
